@@ -172,6 +172,13 @@ def r14b(ctx, classes):
                 if last:
                     continue        # final-layer bounds are not used for requantisation
                 t = p.retval
+                if t[0] == 'sub' and t[1][0] == 'attr':
+                    # memoised bound: judge the value stored under that key (staleness of the
+                    # memo itself is judged by R14g)
+                    stored = [e.data[2] for q in returning(paths(repo, g)) for e in q.events
+                              if e.kind == 'setitem' and e.data[0] == t[1]]
+                    if stored:
+                        t = stored[0]
                 v = t[2][0] if is_call(t, 'torch.tensor') and t[2] else t
                 v = strip_cast(v)
                 vals.append(v)
@@ -246,6 +253,44 @@ def _replace_calls(t, sym):
                 return sym
         return tuple(_replace_calls(x, sym) for x in t)
     return t
+
+
+def r14g(ctx, classes):
+    """No layer-dependent value is memoised in state shared by all instances (a mutable class
+    attribute) under a key that does not identify what the value depends on."""
+    repo = ctx.repo
+    import ast as _ast
+    n = 0
+    for be, ci in classes:
+        shared = {name for c in repo.mro(ci) if isinstance(c, ClassInfo)
+                  for name, v in c.class_assigns.items()
+                  if isinstance(v, (_ast.Dict, _ast.List, _ast.Set)) or
+                  (isinstance(v, _ast.Call) and _ast.unparse(v.func) in ('dict', 'list', 'set'))}
+        for f in list(ci.methods.values()) + list(ci.getters.values()):
+            for p in paths(repo, f):
+                for e in p.events:
+                    if e.kind == 'setitem' and e.data[0][0] == 'attr' and \
+                            e.data[0][1] == SELF and e.data[0][2] in shared:
+                        n += 1
+                        key, val = e.data[1], e.data[2]
+                        deps = {x for x in subterms(val) if x[0] == 'attr' and
+                                mentions(x, lambda y: y == SELF) and
+                                x[2] not in ('device',)}
+                        deps = {x for x in deps if not any(x != y and mentions(y, lambda z, x=x: z == x)
+                                                           for y in deps)}
+                        missing = [x for x in deps if not mentions(key, lambda y, x=x: y == x)]
+                        ctx.ob('R14g', f'{ci.name}.{f.name} memoises into class attribute '
+                               f'{e.data[0][2]}', not missing,
+                               'key covers everything the value depends on' if not missing else
+                               f'{e.data[0][2]} is a mutable class attribute shared by every '
+                               f'{ci.name}; the value {short(val, 80)} depends on '
+                               f'{[short(x, 40) for x in missing]} which the key '
+                               f'{short(key, 40)} does not contain: the first layer evaluated '
+                               f'fixes the bound for all the others (other output precision -> '
+                               f'activations outside the declared range)', where(f, e.node))
+    if n == 0:
+        ctx.ob('R14g', 'no value memoised in class-level state', True,
+               'back-end layers keep no state shared between instances', '', nontrivial=False)
 
 
 def r14c(ctx, classes):
@@ -449,6 +494,7 @@ def run(ctx):
     r14c(ctx, classes)
     r14d(ctx, classes)
     r14f(ctx, classes)
+    r14g(ctx, classes)
     ctx.note('R14e (informational): Backend.DIANA has no layer map; C14 speaks of the two '
              'implemented back ends only')
     ctx.assume('a path is feasible when its branch conditions are consistent (same atom, same '
